@@ -15,6 +15,8 @@ mod ops;
 mod stamp;
 mod traits;
 mod variants;
+#[cfg(feature = "verif_hooks")]
+pub mod verif;
 mod version;
 
 use variants::*;
@@ -43,4 +45,7 @@ const SIZE_OF_U64: usize = std::mem::size_of::<u64>();
 /// Crossover threshold in bytes for choosing IO vs mmap iteration strategy.
 /// Ranges smaller than this use mmap (zero-copy), larger use buffered IO.
 /// IO is kept for truly massive datasets that may exceed available address space.
+#[cfg(not(feature = "verif_hooks"))]
 pub(crate) const MMAP_CROSSOVER_BYTES: usize = 1024 * 1024 * 1024; // 1 GiB
+#[cfg(feature = "verif_hooks")]
+pub(crate) use verif::MMAP_CROSSOVER_BYTES;
